@@ -299,9 +299,10 @@ def flushLoop (g : Cfg) : Nat → S → List KAns → S
             if n = rem then flushLoop g fuel { s with wl := tl } ks
             else flushLoop g fuel { s with wl := .file (off + n) (rem - n) :: tl } ks
 
-/-- Conn.flush -/
+/-- Conn.flush; with nothing to flush the writing event is dropped (`c.resetRead()`: a dial that connected at
+    once was registered with it) -/
 def flush (g : Cfg) (s : S) (ks : List KAns) : S :=
-  if s.closed then s else if s.wl.isEmpty then s else flushLoop g (ks.length + 1) s ks
+  if s.closed then s else if s.wl.isEmpty then cResetRead g s else flushLoop g (ks.length + 1) s ks
 
 /-! ## registration and events -/
 
